@@ -126,8 +126,12 @@ def gen_plan(run_seed: int, k: int, tier: str) -> dict:
 
     def parse_op(target, deep=False):
         g = gsel[objects[target]["g"]]
+        overflow = False
         if deep and g.get("deep"):
             rule, text = rng.choice(g["deep"])
+        elif g.get("overflow") and rng.random() < 0.04:
+            rule, text = rng.choice(g["overflow"])
+            overflow = True
         else:
             rule, text = rng.choice(g["calls"])
             if rng.random() < 0.15:
@@ -135,7 +139,31 @@ def gen_plan(run_seed: int, k: int, tier: str) -> dict:
         pos = 0
         if rng.random() < 0.08 and text:
             pos = rng.randint(0, len(text))
-        return {"op": "parse", "t": target, "rule": rule, "text": text, "pos": pos}
+        op = {"op": "parse", "t": target, "rule": rule, "text": text, "pos": pos}
+        if overflow:
+            op["overflow"] = True  # runs into the recursion limit by itself: never pre-empted
+            op["pos"] = 0
+        elif rng.random() < 0.2:
+            op["defer"] = True
+        return op
+
+    def sibling_of(op):
+        """A call that differs from `op` in ONE respect that a too-coarse memo would miss:
+        same length with one character replaced, same prefix, or another start position."""
+        t = op["text"]
+        r = rng.random()
+        new = dict(op)
+        new.pop("defer", None)
+        if r < 0.4 and t:
+            i = rng.randrange(len(t))
+            new["text"] = t[:i] + rng.choice("x1 ,]a") + t[i + 1 :]
+        elif r < 0.6 and t:
+            new["text"] = t[: rng.randrange(len(t))] + t[-1:]
+        elif r < 0.8 and t:
+            new["pos"] = rng.randint(0, len(t)) if not op["pos"] else 0
+        else:
+            new["text"] = t + rng.choice((" ", "x", t[:1]))
+        return new
 
     # ---- setup phase (sequential prefix of the history, run before the clients start)
     setup = []
@@ -253,6 +281,8 @@ def gen_plan(run_seed: int, k: int, tier: str) -> dict:
                 ops.append({"op": "drop", "t": mine.pop(rng.randrange(len(mine)))})
             else:
                 ops.append(parse_op(rng.choice(avail)))
+                if rng.random() < 0.2:
+                    ops.append(sibling_of(ops[-1]))
         clients.append(ops)
     # every multi-client run shares at least one object between two clients
     if n_clients > 1 and shared:
@@ -433,20 +463,33 @@ def labelset(d):
     return sorted([str(k), sorted({repr(x) for x in v})] for k, v in d.items())
 
 
-def observe_call(target, rule, text, pos, reraise=()):
-    """Make one parse() call and reduce its result to what C15 promises."""
+def call_raw(target, rule, text, pos, reraise=()):
+    """Make one parse() call; return the live result object (Pairs or exception)."""
     from pest import PestParsingError  # noqa: PLC0415
 
     try:
-        pairs = target.parse(rule, text, start_pos=pos)
+        return ("ok", target.parse(rule, text, start_pos=pos))
     except PestParsingError as e:
-        st = e.state
-        return ["fail", st.furthest_pos, labelset(st.furthest_expected), labelset(st.furthest_unexpected)]
+        return ("fail", e)
     except reraise:
         raise
     except Exception as e:  # noqa: BLE001 - the exception *type* is the observation
-        return ["exc", type(e).__name__]
-    return ["ok", tree_of(pairs)]
+        return ("exc", type(e).__name__)
+
+
+def reduce_raw(raw):
+    """Reduce a live result to what C15 promises (tree; failure position and label sets)."""
+    if raw[0] == "ok":
+        return ["ok", tree_of(raw[1])]
+    if raw[0] == "fail":
+        st = raw[1].state
+        return ["fail", st.furthest_pos, labelset(st.furthest_expected), labelset(st.furthest_unexpected)]
+    return ["exc", raw[1]]
+
+
+def observe_call(target, rule, text, pos, reraise=()):
+    """Make one parse() call and reduce its result at once."""
+    return reduce_raw(call_raw(target, rule, text, pos, reraise))
 
 
 def make_optimizer(spec):
@@ -582,7 +625,15 @@ def execute_plan(plan) -> dict:
                 return rec
             mode = "interpreter" if t["kind"] == "parser" else "generated"
             rec["key"] = [t["g"], t["passes"], mode, op["rule"], op["text"], op["pos"]]
-            rec["obs"] = observe_call(t["obj"], op["rule"], op["text"], op["pos"], reraise=(RecursionError,) if (me, op["oid"]) in exhaust else ())
+            raw = call_raw(t["obj"], op["rule"], op["text"], op["pos"], reraise=(RecursionError,) if (me, op["oid"]) in exhaust else ())
+            if op.get("defer"):
+                # the caller keeps the Pairs / PestParsingError and looks at it only after
+                # everything else in this phase has happened: a result is a value, what it
+                # says must not depend on calls made after it was returned
+                deferred.append((rec, raw))
+                rec["obs"] = None
+            else:
+                rec["obs"] = reduce_raw(raw)
         elif kind == "reads":
             t = objs.get(op["t"])
             if t is None or t["kind"] != "parser":
@@ -631,6 +682,7 @@ def execute_plan(plan) -> dict:
         return rec
 
     crashed: list[str] = []
+    deferred: list = []
 
     def run_phase(ph):
         """One phase = a sequential setup prefix (main thread, never pre-empted, never
@@ -679,13 +731,20 @@ def execute_plan(plan) -> dict:
                 t.join(timeout=5)
         if crashed:
             raise RuntimeError("; ".join(crashed))
+        for rec, raw in deferred:
+            try:
+                rec["obs"] = reduce_raw(raw)
+            except Exception as e:  # noqa: BLE001
+                rec["obs"] = ["exc-on-late-read", type(e).__name__]
+            rec["deferred"] = True
+        deferred.clear()
         return sched
 
     def client(me):
         sched.wait_turn(me)
         try:
             for idx, op in enumerate(clients[me]):
-                sched.begin_op(me, op["oid"], idx, op["op"], op.get("t") or op.get("id") or "", no_preempt=(me, op["oid"]) in exhaust)
+                sched.begin_op(me, op["oid"], idx, op["op"], op.get("t") or op.get("id") or "", no_preempt=(me, op["oid"]) in exhaust or bool(op.get("overflow")))
                 try:
                     rec = run_op(me, op)
                 except StepCap:
@@ -814,6 +873,8 @@ class RefServer:
 def diff_clause(obs, ref):
     if obs[0] != ref[0]:
         return f"outcome-{ref[0]}-became-{obs[0]}"
+    if obs[0] == "exc-on-late-read":
+        return "result-object-unreadable-later"
     if obs[0] == "ok":
         return "tree-differs"
     if obs[0] == "fail":
@@ -845,12 +906,14 @@ def judge(plan, run, refs: RefServer):
             continue
         if "key" not in r:
             continue
+        if r.get("obs") is None:
+            continue
         ref = refs.get(plan, r["key"])
         if ref and ref[0] == "ref-error":
             continue
         checked += 1
         if r["obs"] != ref:
-            viols.append({"clause": diff_clause(r["obs"], ref), "mode": r["key"][2], "oid": r["oid"], "got": r["obs"], "reference": ref, "key": r["key"], "after_fault": aborted_before})
+            viols.append({"clause": ("late-read-" if r.get("deferred") else "") + diff_clause(r["obs"], ref), "mode": r["key"][2], "oid": r["oid"], "got": r["obs"], "reference": ref, "key": r["key"], "after_fault": aborted_before})
     if run.get("capped"):
         viols.append({"clause": "run-exceeded-step-budget", "mode": "any", "oid": next((r["oid"] for r in results if r["status"] == "capped"), None), "got": run["steps"], "reference": None, "key": None})
     return viols, checked
@@ -1252,6 +1315,8 @@ class Check:
             for i, op in enumerate(clients[c]):
                 if op["op"] == "parse" and op.get("pos"):
                     yield {**plan, "clients": clients[:c] + [clients[c][:i] + [{**op, "pos": 0}] + clients[c][i + 1 :]] + clients[c + 1 :]}
+                if op["op"] == "parse" and op.get("defer"):
+                    yield {**plan, "clients": clients[:c] + [clients[c][:i] + [{k2: v2 for k2, v2 in op.items() if k2 != "defer"}] + clients[c][i + 1 :]] + clients[c + 1 :]}
                 if op["op"] == "new" and op.get("debug"):
                     yield {**plan, "clients": clients[:c] + [clients[c][:i] + [{**op, "debug": False}] + clients[c][i + 1 :]] + clients[c + 1 :]}
         for oid, spec in plan["optimizers"].items():
@@ -1277,7 +1342,7 @@ class Check:
             if k == "gen":
                 return f"{op['id']}=generate+exec({op['p']})"
             if k == "parse":
-                return f"{op['t']}.parse({op['rule']!r}, {op['text'][:40]!r}{'...' if len(op['text']) > 40 else ''}{', start_pos=%d' % op['pos'] if op.get('pos') else ''})"
+                return f"{op['t']}.parse({op['rule']!r}, {op['text'][:40]!r}{'...' if len(op['text']) > 40 else ''}{', start_pos=%d' % op['pos'] if op.get('pos') else ''}){' [result read at the end of the phase]' if op.get('defer') else ''}"
             if k in ("drop", "reads"):
                 return f"{k}({op['t']})"
             return k
